@@ -28,6 +28,9 @@ EXPLANATION = ('OWN + ESC guard; RANK chain and sort key; LAYOUT of the four pro
 TRUSTED = ['protobuf copy semantics', 'list.sort is stable']
 NOT_DECIDED = ['which notes are held until when, over all interleavings of coinciding events']
 ASSUMPTIONS = []
+# rules whose verdict does not depend on how the statements are arranged (semantic analyses); all other rules are shape rules:
+# when one of those fails in a function that was restructured relative to reference/signatures.json the verdict is "cannot decide"
+ROBUST = ('OWN/write', 'OWN/return')
 FLOORS = {'OWN': 8, 'RANK': 2, 'LAYOUT': 5, 'THRESHOLD': 2, 'KEYED': 8, 'DRUM': 2, 'DISPATCH': 5, 'BRANCH': 7, 'PAIR': 2}
 
 RANKS = ['_SUSTAIN_ON', '_SUSTAIN_OFF', '_NOTE_ON', '_NOTE_OFF']
